@@ -543,6 +543,22 @@ impl assets_manager::Asset for Inline {
     type Loader = BigLoader;
 }
 
+/// small plain values (one cache line, and two words): what an "it fits in a register / cache line" shortcut would aim at
+#[derive(Clone, Copy)]
+pub struct SmallPod<const N: usize> {
+    pub words: [u64; N],
+}
+impl<const N: usize> assets_manager::loader::Loader<SmallPod<N>> for BigLoader {
+    fn load(content: std::borrow::Cow<[u8]>, _ext: &str) -> Result<SmallPod<N>, assets_manager::BoxedError> {
+        let n = crate::assets::parse_leaf(&content).ok_or("bad")? as u64;
+        Ok(SmallPod { words: [n; N] })
+    }
+}
+impl<const N: usize> assets_manager::Asset for SmallPod<N> {
+    const EXTENSION: &'static str = "x";
+    type Loader = BigLoader;
+}
+
 fn uniform(w: &[u64]) -> (u64, bool) {
     let first = unsafe { std::ptr::read_volatile(&w[0]) };
     let mut ok = true;
@@ -668,6 +684,22 @@ pub fn c07(args: &[String]) {
             }
         }));
     }
+    // the same on small plain values of the same file (8 words = one cache line, 2 words)
+    let h8 = cache.load::<SmallPod<8>>("a").unwrap();
+    let h2 = cache.load::<SmallPod<2>>("a").unwrap();
+    for i in 0..2 {
+        let stop = stop.clone();
+        let torn_copies = torn_copies.clone();
+        readers.push(std::thread::spawn(move || {
+            trace::set_thread(&format!("s{}", i + 1));
+            while !stop.load(Ordering::Relaxed) {
+                let ok = if i == 0 { uniform(&h8.copied().words).1 && uniform(&h2.cloned().words).1 } else { uniform(&h8.cloned().words).1 && uniform(&h2.copied().words).1 };
+                if !ok {
+                    torn_copies.fetch_add(1, Ordering::Relaxed);
+                }
+            }
+        }));
+    }
     // a reader whose guard lives inside a Compound::load
     {
         let stop = stop.clone();
@@ -741,11 +773,13 @@ pub fn c07(args: &[String]) {
     let lines = trace::take();
     let mut proj = Vec::new();
     let mut torn = torn_copies.load(Ordering::SeqCst);
+    // the trace specification follows the big value only (the small ones share its id and file, not its entry)
+    let inline_ty = format!("{:?}", std::any::TypeId::of::<Inline>());
     for l in lines {
         match l["ev"].as_str() {
             Some("Notified") => proj.push(json!({"ev":"Notified"})),
             Some("Begin") | Some("End") if l["op"] == "hot_reload" => proj.push(json!({"ev":l["ev"]})),
-            Some("Write") if l["id"] == "a" => proj.push(json!({"ev":"Write","rid":l["rid"]})),
+            Some("Write") if l["id"] == "a" && l["ty"] == inline_ty.as_str() => proj.push(json!({"ev":"Write","rid":l["rid"]})),
             Some("GuardAcq") => proj.push(json!({"ev":"GuardAcq","th":l["th"],"rid":l["rid"],"val":l["val"]})),
             Some("TornCopy") => torn += 1,
             Some("GuardRel") => {
